@@ -127,7 +127,7 @@ def tlc(module, cfg, metadir, env_extra=None, workers=1, timeout=3600, extra_arg
         e.update(env_extra)
     fresh_dir(metadir)
     cmd = ["java", "-cp", TLC_JAR, "tlc2.TLC", "-workers", str(workers), "-config", cfg,
-           "-metadir", metadir, "-cleanup", "-noGenerateSpecTE"]
+           "-metadir", metadir, "-cleanup", "-noGenerateSpecTE", "-checkpoint", "0"]
     if extra_args:
         cmd += extra_args
     cmd += [module]
